@@ -1161,6 +1161,8 @@ func Run(c *hx.Ctx) {
 	runModeAll(c)
 	// circuit-breaker thresholds of an updated cluster: live vs a fresh cluster from the dump after every step (rsrc.go)
 	runRsrcAll(c)
+	// removals down to zero and re-additions, dump after every step into the same directories, reload (dirhist.go)
+	runDirAll(c)
 	g := &gen{c: c}
 	n := c.N(5000, 40000)
 	for i := 0; i < n; i++ {
